@@ -139,22 +139,22 @@ def observe(case):
         info['refresh'] = 'direct (%s)' % type(e).__name__
     integ = Integrator(**{pa.name: IntegratorStep() for pa in pas})
     integ.set_acceleration_evals(AEval(pas))
-    integ.fixed_h = False
-    if case['fixed_h']:
-        # what Solver.setup does, minus the compiled integrator
-        integ.compute_h_minimum()
-        integ.fixed_h = True
-    if not case['fixed_h'] and case['idx'] % 3 == 0:
-        # an earlier life of the same integrator: the particles used to be
-        # finer (a quarter of their present smoothing length); what it
-        # proposed then must not influence what it proposes now
-        def refresh():
-            for pa in pas:
-                pa.get_carray('h').update_min_max()
+    def refresh():
+        for pa in pas:
+            pa.get_carray('h').update_min_max()
+
+    def setup():
+        # what Solver.setup does on every set-up
+        integ.set_fixed_h(bool(case['fixed_h']))
+    if case['idx'] % 3 == 0:
+        # an earlier life of the same integrator (an earlier Solver.setup on
+        # finer particles: a quarter of the present smoothing lengths); what
+        # it proposed then must not influence what it proposes now
         for pa in pas:
             pa.get('h', only_real_particles=False)[:] *= 0.25
         refresh()
         try:
+            setup()
             integ.compute_time_step(case['dt'], case['cfl'])
         except Exception:
             pass
@@ -163,6 +163,10 @@ def observe(case):
             pa.get('h', only_real_particles=False)[:] *= 4.0
         refresh()
         info['earlier_life'] = True
+    try:
+        setup()
+    except Exception as e:
+        info['setup_exc'] = repr(e)
     try:
         got = integ.compute_time_step(case['dt'], case['cfl'])
         info['exc'] = None
